@@ -93,8 +93,12 @@ def stage_of(ph, uniq):
         return None
     i = uniq.index(ph)
     w, v = idx("Write output file"), idx("Verify inputs unchanged")
-    if v is not None and i >= v:
-        return "at-final-check" if i == v else "after-final-check"
+    fl = idx("verif: output flushed")
+    last = max(x for x in (v, fl) if x is not None)
+    if i > last:
+        return "after-final-check"
+    if v is not None and i == v:
+        return "at-final-check"
     if w is not None and i >= w:
         return "during-write"
     return "before-write"
@@ -165,7 +169,11 @@ def main(ctx):
         if ph not in uniq:
             uniq.append(ph)
     start = next(i for i, u in enumerate(uniq) if u.startswith("Open input files"))
-    end = next(i for i, u in enumerate(uniq) if u.startswith("Verify inputs unchanged"))
+    # "when the link finishes" is no earlier than the completion of the output: instants are judged
+    # up to the later of wild's final check and the end of output writing (a final check that ran
+    # before the output was written would leave modifications during writing undetected).
+    end = max(next(i for i, u in enumerate(uniq) if u.startswith("Verify inputs unchanged")),
+              max([i for i, u in enumerate(uniq) if u.startswith("verif: output flushed") or u.startswith("Write output file")] or [0]))
     points = uniq[start + 1:end + 1]
     extra_after = uniq[end + 1:end + 3]
     if ctx.quick:
